@@ -12,6 +12,7 @@ import Pyunicorn.Lemmas.RelabelRec5
 import Pyunicorn.Lemmas.RelabelW5
 import Pyunicorn.Lemmas.RelabelBetw5
 import Pyunicorn.Lemmas.RelabelBetw5b
+import Pyunicorn.Lemmas.RelabelBetw5d
 import Mathlib.Algebra.BigOperators.Group.List.Basic
 import Mathlib.Data.List.Nodup
 /-!
@@ -677,6 +678,61 @@ theorem cross_nsi_relabel (h : IsPerm n idx) (hinj : Function.Injective idx) (N 
     nsiCrossTransitivity_nat hinj, nsiCrossCloseness_nat hinj, nsiCrossAPL_nat hinj, e1, e2,
     and_self]
 
+/-- **`InteractingNetworks.cross_betweenness(node_list1, node_list2)`** (round 5d; C11's wrapper
+model `Cross.crossBetweenness`: source mask by one store per listed source, `is_source[sources] = 1`
+— `Cross.srcMask`, a `foldl` of `set`s —, unit weights, the targets in the caller's order, then C03's
+kernel model of `_nsi_betweenness`): for every undirected network and every two node lists with
+entries `< N`, the renumbered network called with both lists renumbered through the inverse
+permutation returns the renumbered per-node array; entry `v` of the new result is entry `idx v` of
+the old one; and the source mask stored for the renumbered list is the renumbered mask.  Through
+C11's bridge (the wrapper is C03's `interregionalBetweenness` with explicit lists) and
+`net_betweenness_api_relabel`. -/
+theorem cross_betweenness_relabel (h : IsPerm n idx) (a : Net.Adj) (hsym : ∀ x y, a x y = a y x)
+    (L1 L2 : List Nat) (h1 : ∀ k ∈ L1, k < n) (h2 : ∀ k ∈ L2, k < n) :
+    crossBetweenness n (mat a idx) (nodes n idx L1) (nodes n idx L2)
+      = nodeList n idx 0 (crossBetweenness n a L1 L2) ∧
+    (∀ v, v < n →
+      (crossBetweenness n (mat a idx) (nodes n idx L1) (nodes n idx L2)).getD v 0
+        = (crossBetweenness n a L1 L2).getD (idx v) 0) ∧
+    srcMask n (nodes n idx L1) = nodeList n idx false (srcMask n L1) ∧
+    crossBetweenness n a L1 L2
+      = NetBetw.interregionalBetweenness n a (fun _ => 1) (some L1) (some L2) := by
+  refine ⟨crossBetweenness_relabel h a hsym L1 L2 h1 h2, fun v hv => ?_,
+    crossSrcMask_relabel h L1 h1, (crossDelegates_eq_api n a (fun _ => 1) L1 L2).1⟩
+  rw [crossBetweenness_relabel h a hsym L1 L2 h1 h2, nodeList_getD n idx 0 _ v hv]
+
+/-- **`InteractingNetworks.internal_betweenness(node_list)`** (round 5d; C11's
+`Cross.internalBetweenness` = `cross_betweenness(L, L)`: the same list as sources and as targets):
+the renumbered network called with the renumbered list returns the renumbered array, for every
+undirected network. -/
+theorem cross_internal_betweenness_relabel (h : IsPerm n idx) (a : Net.Adj)
+    (hsym : ∀ x y, a x y = a y x) (L : List Nat) (hL : ∀ k ∈ L, k < n) :
+    internalBetweenness n (mat a idx) (nodes n idx L)
+      = nodeList n idx 0 (internalBetweenness n a L) ∧
+    (∀ v, v < n →
+      (internalBetweenness n (mat a idx) (nodes n idx L)).getD v 0
+        = (internalBetweenness n a L).getD (idx v) 0) := by
+  refine ⟨internalBetweenness_relabel h a hsym L hL, fun v hv => ?_⟩
+  rw [internalBetweenness_relabel h a hsym L hL, nodeList_getD n idx 0 _ v hv]
+
+/-- **`InteractingNetworks.nsi_cross_betweenness(node_list1, node_list2)`** (round 5d; C11's
+`Cross.nsiCrossBetweenness`: the same delegation with the node weights): for every undirected network
+with positive node weights, the renumbered network with `w[idx]` called with the renumbered lists
+returns the renumbered array; the wrapper is C03's `apiBetweenness` with explicit lists and
+`nsi=True` (C11's bridge). -/
+theorem cross_nsi_betweenness_relabel (h : IsPerm n idx) (a : Net.Adj)
+    (hsym : ∀ x y, a x y = a y x) (w : Nat → Rat) (hw : ∀ v, v < n → 0 < w v)
+    (L1 L2 : List Nat) (h1 : ∀ k ∈ L1, k < n) (h2 : ∀ k ∈ L2, k < n) :
+    nsiCrossBetweenness n (mat a idx) (vec w idx) (nodes n idx L1) (nodes n idx L2)
+      = nodeList n idx 0 (nsiCrossBetweenness n a w L1 L2) ∧
+    (∀ v, v < n →
+      (nsiCrossBetweenness n (mat a idx) (vec w idx) (nodes n idx L1) (nodes n idx L2)).getD v 0
+        = (nsiCrossBetweenness n a w L1 L2).getD (idx v) 0) ∧
+    nsiCrossBetweenness n a w L1 L2 = NetBetw.apiBetweenness n a w (some L1) (some L2) true := by
+  refine ⟨nsiCrossBetweenness_relabel h a hsym w hw L1 L2 h1 h2, fun v hv => ?_,
+    (crossDelegates_eq_api n a w L1 L2).2⟩
+  rw [nsiCrossBetweenness_relabel h a hsym w hw L1 L2 h1 h2, nodeList_getD n idx 0 _ v hv]
+
 /-! ## C18 model: resistive networks -/
 open Pyunicorn.Circuit
 
@@ -1054,6 +1110,26 @@ example :
     NetBetw.apiBetweenness 4 exAdj exW4 (some [0]) (some [2]) true = [0, 3 / 2, 0, 0] ∧
     NetBetw.interregionalBetweenness 4 (mat exAdj exPerm) (fun _ => 7) none none = [0, 0, 0, 2] ∧
     nodes 4 exPerm (List.range 4) = [1, 3, 0, 2] := by
+  decide +kernel
+/-- round 5d: the node-group betweenness measures on the path 0 — 1 — 2 (+ isolated 3), groups
+`[0, 3]` (sources) and `[2, 1]` (targets): the middle node lies on the one shortest path from 0 to
+2 — `cross_betweenness = [0, 1, 0, 0]`, with node weights 1, 2, 3, 4 `nsi_cross_betweenness =
+[0, 3/2, 0, 0]`, `internal_betweenness([0, 2, 3]) = [0, 2, 0, 0]` —, not the trivial array and
+different from the whole-network values above; on the renumbered network with the renumbered lists
+(`[1, 2]`, `[0, 3]`) the value sits at node 3.  The stored source mask of `[0, 3]` is
+`[T, F, F, T]`, of the renumbered list `[F, T, T, F]`. -/
+example :
+    crossBetweenness 4 exAdj [0, 3] [2, 1] = [0, 1, 0, 0] ∧
+    crossBetweenness 4 (mat exAdj exPerm) (nodes 4 exPerm [0, 3]) (nodes 4 exPerm [2, 1])
+      = [0, 0, 0, 1] ∧
+    nodes 4 exPerm [2, 1] = [0, 3] ∧
+    srcMask 4 [0, 3] = [true, false, false, true] ∧
+    srcMask 4 (nodes 4 exPerm [0, 3]) = [false, true, true, false] ∧
+    internalBetweenness 4 exAdj [0, 2, 3] = [0, 2, 0, 0] ∧
+    internalBetweenness 4 (mat exAdj exPerm) (nodes 4 exPerm [0, 2, 3]) = [0, 0, 0, 2] ∧
+    nsiCrossBetweenness 4 exAdj exW4 [0, 3] [2, 1] = [0, 3 / 2, 0, 0] ∧
+    nsiCrossBetweenness 4 (mat exAdj exPerm) (vec exW4 exPerm) (nodes 4 exPerm [0, 3])
+        (nodes 4 exPerm [2, 1]) = [0, 0, 0, 3 / 2] := by
   decide +kernel
 /-- links of the path 0 — 1 — 2 listed in two different orders / orientations -/
 def exNetA : Repr.Net := { Repr.Net.blank false 3 with graph := [(0, 1), (1, 2)] }
